@@ -489,6 +489,51 @@ pub fn gen_program(seed: u64, run: u64, takers: &[usize], makers: &[usize]) -> P
     Program { init: g.init, steps, faults }
 }
 
+/// The systematic part: one single-op program per (op, padded argument position, poison class,
+/// route, operand class). Guarantees the (op, position, class) grid is covered instead of
+/// leaving it to sampling; the seeded chains then add compositions and natural garbage.
+pub fn grid_cases(takers: &[usize]) -> Vec<(usize, usize, usize, usize, usize)> {
+    let mut v = Vec::new();
+    for &oi in takers {
+        for (pos, t) in OPS[oi].args.iter().enumerate() {
+            if !mentions_padded(t) {
+                continue;
+            }
+            for pc in 0..POISON_CLASSES.len() + 3 {
+                for route in 0..ROUTES.len() {
+                    for oc in 0..3 {
+                        v.push((oi, pos, pc, route, oc));
+                    }
+                }
+            }
+        }
+    }
+    v
+}
+
+pub fn gen_grid_program(seed: u64, case: (usize, usize, usize, usize, usize), idx: u64) -> Program {
+    let (oi, pos, pc, route, oc) = case;
+    let mut rng = Rng::new(seed, "c08-grid", idx);
+    let cls = [Cls::Ordinary, Cls::Mix, Cls::RandomBits][oc];
+    let op = &OPS[oi];
+    let mut g = Gen { rng: &mut rng, next_id: 0, reg_ty: Vec::new(), init: Vec::new(), cls };
+    let args: Vec<RegId> = op.args.iter().map(|t| g.fresh(t, op)).collect();
+    let outs: Vec<RegId> = (0..op.outs.len()).map(|i| 1000 + i as RegId).collect();
+    let spec = |r: &mut Rng| match pc {
+        k if k < POISON_CLASSES.len() => PBits::Const(POISON_CLASSES[k].1),
+        k if k == POISON_CLASSES.len() => PBits::CopyLane(r.below(3)),
+        k if k == POISON_CLASSES.len() + 1 => PBits::NegLane(r.below(3)),
+        _ => PBits::Const(r.next_u32()),
+    };
+    let ncols = match &op.args[pos] {
+        t if is_padded_ty(t) => padded_cols(t),
+        _ => 4,
+    };
+    let bits: Vec<PBits> = (0..ncols).map(|_| spec(g.rng)).collect();
+    let faults = vec![Fault { before_step: 0, reg: args[pos], bits, route: ROUTES[route] }];
+    Program { init: g.init, steps: vec![Step { op: oi, args, outs }], faults }
+}
+
 // ---------------------------------------------------------------------------------------------
 // minimisation
 
@@ -664,6 +709,10 @@ pub struct RunOut {
 
 pub fn run_one(seed: u64, run: u64, takers: &[usize], makers: &[usize], want_sample: bool) -> RunOut {
     let p = gen_program(seed, run, takers, makers);
+    run_program(p, seed, run, want_sample)
+}
+
+pub fn run_program(p: Program, seed: u64, run: u64, want_sample: bool) -> RunOut {
     let a = execute(&p, Variant::None, false);
     let b = execute(&p, Variant::P, false);
     let c = execute(&p, Variant::PBar, false);
@@ -726,7 +775,7 @@ pub fn run_one(seed: u64, run: u64, takers: &[usize], makers: &[usize], want_sam
     }
 }
 
-pub fn run(seed: u64, runs: usize, workers: usize) -> Summary {
+pub fn run(seed: u64, runs: usize, workers: usize, grid: bool) -> Summary {
     let (takers, makers) = op_sets();
     let mut sum = Summary::default();
     sum.faults_fired.insert("POISON_LANE3".into(), 0);
@@ -736,10 +785,20 @@ pub fn run(seed: u64, runs: usize, workers: usize) -> Summary {
     let mut ops_hit: BTreeSet<usize> = BTreeSet::new();
     let mut dig = util::Digest::default();
     let sample_every = (runs / 3).max(1);
+    let gcases = if grid { grid_cases(&takers) } else { Vec::new() };
+    let ng = gcases.len();
+    sum.extra.insert("grid_programs".into(), json!(ng));
     util::par_runs(
-        runs,
+        ng + runs,
         workers,
-        |i| run_one(seed, i as u64, &takers, &makers, i % sample_every == 0),
+        |i| {
+            if i < ng {
+                run_program(gen_grid_program(seed, gcases[i], i as u64), seed, i as u64, false)
+            } else {
+                let i = i - ng;
+                run_one(seed, i as u64, &takers, &makers, i % sample_every == 0)
+            }
+        },
         |_, r| {
             sum.evaluations += 1;
             steps += r.steps;
@@ -780,7 +839,7 @@ pub fn replay(j: &J) -> Option<(String, String)> {
 
 /// Event-log digest of a batch, for the determinism self-test.
 pub fn digest_only(seed: u64, runs: usize, workers: usize) -> u64 {
-    let s = run(seed, runs, workers);
+    let s = run(seed, runs, workers, false);
     let mut d = util::Digest::default();
     d.push(s.digests["event-log"].finish());
     d.push(s.evaluations);
